@@ -149,6 +149,10 @@ type specCfg struct {
 	// non-default cache options
 	serverName   string   // cache.WithServerName
 	excludedMeta []string // cache.WithExcludedMeta
+	// histKey: the whole operation history is the state (nothing is merged):
+	// for bookkeeping an implementation derives from HOW a state was reached
+	// (a remembered leaf handle, a memoised delete) and that no query shows
+	histKey bool
 }
 
 type repLeaf struct {
@@ -463,6 +467,9 @@ func errClass(err error) string {
 // timestamps of metadata leaves under a ticking clock (the clock is
 // monotonic, so a stored metadata timestamp is always in the past).
 func (w *world) Key() string {
+	if w.cfg.histKey {
+		return fmt.Sprint(w.hist)
+	}
 	var b strings.Builder
 	for _, t := range w.allTargets() {
 		if !w.c.HasTarget(t) {
